@@ -32,7 +32,7 @@ def plan(tier):
     if tier == "quick":
         base.update({"ncases": 320, "min_nontrivial": 60})
     else:
-        base.update({"ncases": 6000, "min_nontrivial": 2000, "required_counters": {"oracle": 8000, "bounds_checked": 4000}})
+        base.update({"ncases": 60000, "min_nontrivial": 20000, "required_counters": {"oracle": 80000, "bounds_checked": 40000}})
     return base
 
 
